@@ -9,7 +9,7 @@ DEFAULT_WEIGHTS = {
     "advance": 10, "stake": 14, "unstake": 9, "submit": 7, "deliver": 6, "rewards": 5, "withdraw": 8,
     "ack": 10, "timeout": 3, "recover": 5, "stray": 2, "breaker": 1, "resume": 2, "update_config": 2,
     "validators": 1, "ownership": 3, "fee_withdraw": 2, "donate": 1, "unauthorized": 4, "garbage": 1,
-    "outage": 1, "longrun": 0, "unknown": 0,
+    "outage": 1, "longrun": 0, "unknown": 0, "dust": 0.4, "drain": 0.3,
 }
 
 
@@ -157,6 +157,88 @@ class Gen:
             h.event(exec_ev(r.choice(su.users), {"submit_batch": {}}, []))
         return [exec_ev(u, {"liquid_unstake": {}}, [coin(su.lst, 1)])] if h.bal(u, su.lst) > 0 else self.ev_advance()
 
+    def ev_dust(self):
+        """a batch that holds one large and one dust request comes back one unit (or half) short, so that the dust
+        request's share rounds to zero; then its owner withdraws (at most once per history)"""
+        r = self.rng
+        su = self.su
+        h = self.h
+        st = h_state(h)
+        if getattr(h, "dust_done", False):
+            return self.ev_withdraw()
+        if st is None or h.config().get("stopped"):
+            return self.ev_resume()
+        h.dust_done = True
+        a, b = r.sample(su.users, 2)
+        stake = {"liquid_stake": {"mint_to": None, "transfer_to_native_chain": None, "expected_mint_amount": None}}
+        for u, need in ((a, 1000), (b, 1)):
+            if h.bal(u, su.lst) < need:
+                amt = max(su.min_stake, 10 * need)
+                self.ensure_funds(u, STAKED, amt)
+                h.event(exec_ev(u, stake, [coin(STAKED, amt)]))
+        if h.bal(a, su.lst) < 2 or h.bal(b, su.lst) < 1:
+            return self.ev_advance()
+        h.event(exec_ev(a, {"liquid_unstake": {}}, [coin(su.lst, max(2, h.bal(a, su.lst) // r.choice([1, 2])))]))
+        h.event(exec_ev(b, {"liquid_unstake": {}}, [coin(su.lst, 1)]))
+        pend = [x for x in h.batches() if x["status"] == "pending"]
+        if not pend:
+            return self.ev_advance()
+        bid = pend[0]["id"]
+        due = int(pend[0]["next_batch_action_time"]) // NS
+        if due * NS > h.time:
+            h.event({"ev": "advance", "dt": str(due * NS - h.time + r.choice([0, 1, NS])), "dh": 1})
+        h.event(exec_ev(r.choice(su.users), {"submit_batch": {}}, []))
+        sub = [x for x in h.batches() if x["id"] == bid and x["status"] == "submitted"]
+        if not sub:
+            return self.ev_advance()
+        due = int(sub[0]["next_batch_action_time"]) // NS
+        if due * NS > h.time:
+            h.event({"ev": "advance", "dt": str(due * NS - h.time + r.choice([0, 1, NS])), "dh": 1})
+        exp = int(sub[0]["expected_native_unstaked"])
+        ch, sender = self.identity("staker")
+        h.event({"ev": "hook", "channel": ch, "native_sender": sender, "coin": coin(STAKED, max(1, r.choice([exp - 1, exp - 1, exp // 2]))),
+                 "msg": {"receive_unstaked_tokens": {"batch_id": bid}}})
+        first, second = r.choice([(b, a), (b, a), (a, b)])
+        h.event(exec_ev(first, {"withdraw": {"batch_id": bid}}, []))
+        return [exec_ev(second, {"withdraw": {"batch_id": bid}}, [], self.faults())]
+
+    def ev_drain(self):
+        """every holder on the protocol chain unstakes everything and the batch is submitted, so that (unless LST lives
+        on the native chain) no LST is outstanding while staked asset may still be accounted; then a reward arrives and
+        somebody stakes again (at most once per history)"""
+        r = self.rng
+        su = self.su
+        h = self.h
+        st = h_state(h)
+        if getattr(h, "drain_done", False):
+            return self.ev_rewards()
+        if st is None or h.config().get("stopped"):
+            return self.ev_resume()
+        h.drain_done = True
+        stake = {"liquid_stake": {"mint_to": None, "transfer_to_native_chain": None, "expected_mint_amount": None}}
+        holders = [u for u in su.users + [su.contract_like] if h.bal(u, su.lst) > 0]
+        if not holders:
+            u = r.choice(su.users)
+            amt = max(su.min_stake, 1000)
+            self.ensure_funds(u, STAKED, amt)
+            h.event(exec_ev(u, stake, [coin(STAKED, amt)]))
+            holders = [u] if h.bal(u, su.lst) > 0 else []
+        for u in holders:
+            h.event(exec_ev(u, {"liquid_unstake": {}}, [coin(su.lst, h.bal(u, su.lst))]))
+        pend = [x for x in h.batches() if x["status"] == "pending"]
+        if pend:
+            due = int(pend[0]["next_batch_action_time"]) // NS
+            if due * NS > h.time:
+                h.event({"ev": "advance", "dt": str(due * NS - h.time + r.choice([0, 1, NS])), "dh": 1})
+            h.event(exec_ev(r.choice(su.users), {"submit_batch": {}}, []))
+        ch, who = self.identity("collector")
+        h.event({"ev": "hook", "channel": ch, "native_sender": who, "coin": coin(STAKED, r.choice([100, 1000, 12345])),
+                 "msg": {"receive_rewards": {}}, "faults": {}})
+        u = r.choice(su.users)
+        amt = max(su.min_stake, r.choice([1000, 5000]))
+        self.ensure_funds(u, STAKED, amt)
+        return [exec_ev(u, stake, [coin(STAKED, amt)])]
+
     def ev_unknown(self):
         """a message variant the source declares and the model does not know (only when the interface theorem is
         broken): fields filled by type, from any sender, with or without funds"""
@@ -296,7 +378,7 @@ class Gen:
         if subs and r.random() < 0.9:
             b = r.choice(subs)
             exp = int(b["expected_native_unstaked"])
-            amt = r.choice([exp, exp, exp, max(0, exp - 1), exp + 1, exp // 2, exp * 2 + 1])
+            amt = r.choice([exp, exp, exp, max(0, exp - 1), max(0, exp - 1), exp + 1, exp // 2, exp * 2 + 1])
             bid = b["id"]
         else:
             bid = r.choice([0, 1, 2, 99])
@@ -340,7 +422,14 @@ class Gen:
             for q in self.h.requests_of(u):
                 if q["batch_id"] in recv:
                     cands.append((u, q["batch_id"]))
-        if cands and r.random() < 0.85:
+        dust = []
+        for (u_, b_) in cands:
+            for q in self.h.requests_of(u_):
+                if q["batch_id"] == b_ and int(q["amount"]) <= 7:
+                    dust.append((u_, b_))
+        if dust and r.random() < 0.4:
+            u, bid = r.choice(dust)
+        elif cands and r.random() < 0.85:
             u, bid = r.choice(cands)
         else:
             u = self.some_user()
@@ -407,6 +496,9 @@ class Gen:
             if r.random() < 0.1:
                 sel = sel + [424242]
             recv = p["receiver"] if p["receiver"] != su.staker or r.random() < 0.5 else None
+            if r.random() < (0.45 if p["receiver"] != su.staker else 0.15):
+                # the selection belongs to one receiver, the message names none or another one
+                recv = r.choice([None, None, su.staker, r.choice(su.native_users)])
             # a forced recovery of refundable packets only (one receiver, one denom) that names an id again after another
             groups = {}
             for q in infl:
@@ -500,15 +592,23 @@ class Gen:
         if r.random() < 0.6:
             new_p = r.choice([old_p, su.proto_prefix, "cosmos", "celestia", "init"])
             o = r.choice([None, bech32.addr(new_p, "oracle", 32), bech32.addr(old_p, "oracle", 32), su.oracle])
+            if r.random() < 0.2:
+                # the same prefix spelled in upper / mixed case (bech32 allows all-upper), mostly without an address under it
+                new_p = r.choice([new_p.upper(), new_p.upper(), new_p.capitalize()])
+                o = r.choice([None, None, None, o])
             msg["protocol_chain_config"] = su.proto_cfg(account_address_prefix=new_p, oracle_address=o)
         if r.random() < 0.4:
             new_n = r.choice([old_n, su.native_prefix, "cosmos", "osmo"])
             vp = r.choice([su.val_prefix, new_n + "valoper"])
             pick = r.choice([new_n, new_n, old_n])
+            vals = [bech32.addr(r.choice([vp, vp, su.val_prefix]), "val%d" % i) for i in range(r.choice([1, 2, 3]))]
+            if r.random() < 0.2:
+                vp = r.choice([vp.upper(), vp.upper(), vp.capitalize()])
+                vals = r.choice([[], [], vals])
             msg["native_chain_config"] = su.native_cfg(
                 account_address_prefix=new_n, validator_address_prefix=vp,
                 staker_address=bech32.addr(pick, "staker"), reward_collector_address=bech32.addr(r.choice([new_n, pick]), "collector"),
-                validators=[bech32.addr(r.choice([vp, vp, su.val_prefix]), "val%d" % i) for i in range(r.choice([1, 2, 3]))])
+                validators=vals)
         if r.random() < 0.5:
             p = r.choice([new_p, new_p, old_p])
             msg["protocol_fee_config"] = {"dao_treasury_fee": str(r.choice([0, 5000, 100_000])),
@@ -551,7 +651,8 @@ class Gen:
         r = self.rng
         st = h_state(self.h)
         fees = int(st["total_fees"]) if st else 0
-        amt = r.choice([fees, fees // 2, fees + 1, 0, 1])
+        n = int(st["total_native_token"]) if st else 0
+        amt = r.choice([fees, fees // 2, fees + 1, 0, 1, fees + n, fees + max(1, n // 2)])
         return [exec_ev(self.current_admin(), {"fee_withdraw": {"amount": str(amt)}})]
 
     def ev_donate(self):
@@ -582,10 +683,17 @@ class Gen:
         ]
         m = r.choice(msgs)
         if r.random() < 0.3:
-            # Receive* sent directly by an account that is not the hook account
-            m = r.choice([{"receive_rewards": {}}, {"receive_unstaked_tokens": {"batch_id": 1}}])
-            self.ensure_funds(who, STAKED, 50)
-            return [exec_ev(who, m, [coin(STAKED, 50)])]
+            # Receive* sent directly by an account that is not the hook account -- including the accounts that hold
+            # another role (admin, monitors, treasury, oracle, the staker's / collector's own address)
+            who = r.choice([who, self.current_admin(), su.admin, su.treasury, su.oracle, su.staker, su.collector] + su.monitors)
+            subs = [b for b in self.h.batches() if b["status"] == "submitted"]
+            if subs and r.random() < 0.8:
+                b = r.choice(subs)
+                m, amt = {"receive_unstaked_tokens": {"batch_id": b["id"]}}, max(1, int(b["expected_native_unstaked"]))
+            else:
+                m, amt = r.choice([({"receive_rewards": {}}, 50), ({"receive_unstaked_tokens": {"batch_id": 1}}, 50)])
+            self.ensure_funds(who, STAKED, amt)
+            return [exec_ev(who, m, [coin(STAKED, amt)])]
         return [exec_ev(who, m)]
 
     def ev_garbage(self):
